@@ -17,7 +17,7 @@ def outcome (r : Except Err Pkt) : String :=
   | .error e => s!"err {e.name}"
 
 /-- `soup.decvia (<Class>…) <bytes>`: the outcome of `<Class>.from_bytes(bytes)` for every listed class, `|`-separated;
-    `soup.unpack <Class> <bytes>`: the outcome of `<Class>.unpack(bytes)` -/
+    `soup.unpack (<Class>…) <bytes>`: the outcome of `<Class>.unpack(bytes)` for every listed packet class -/
 def handle (op : String) (args : List Sexp) : Option String :=
   match op, args with
   | "soup.decvia", [.list cs, b] => do
@@ -26,11 +26,15 @@ def handle (op : String) (args : List Sexp) : Option String :=
         | .atom a => kindOfAtom a
         | _ => none
       some (" | ".intercalate (ks.map fun k => outcome (decodeVia k b)))
-  | "soup.unpack", [.atom c, b] => do
+  | "soup.unpack", [.list cs, b] => do
       let b ← asBytes b
-      match ← kindOfAtom c with
-      | none => none
-      | some k => some (outcome (unpackAs k b))
+      let ks ← cs.mapM fun c => match c with
+        | .atom a => kindOfAtom a
+        | _ => none
+      let outs ← ks.mapM fun k => match k with
+        | none => none                                  -- SoupMessage.unpack builds a bare SoupMessage: not a packet, not modelled
+        | some k => some (outcome (unpackAs k b))
+      some (" | ".intercalate outs)
   | _, _ => none
 
 end NasdaqModel.Driver.SoupViaD
